@@ -384,6 +384,7 @@ impl<'p> World<'p> {
     pub fn materialise_claims(&self, c: &ClaimsSpec, now_ns: i128) -> Option<Claims> {
         Some(match c {
             ClaimsSpec::Raw { bytes } => Claims::Raw(bytes.get()),
+            ClaimsSpec::RawC { bytes } => Claims::RawC(bytes.get()),
             ClaimsSpec::Probe { bytes } => Claims::Probe(bytes.get()),
             ClaimsSpec::Json { value } => Claims::Json(value.clone()),
             ClaimsSpec::Reg { claims } => Claims::Reg(claims.clone()),
@@ -459,8 +460,11 @@ impl<'p> World<'p> {
             Step::Deliver { tok, node, key, purpose, faults, pk, fk, validator, alias, now_ns, pair_with } => {
                 self.deliver(idx, *tok, *node, *key, *purpose, faults, *pk, *fk, validator, *alias, now_ns.0, *pair_with)
             }
-            Step::RefSeal { tok, family, key, purpose, payload, footer, aad, nonce } => {
-                self.ref_seal(*tok, *family, *key, *purpose, payload, footer, aad, nonce)
+            Step::RefSeal { tok, family, key, purpose, payload, footer, aad, nonce, suffix } => {
+                self.ref_seal(*tok, *family, *key, *purpose, payload, footer, aad, nonce, suffix)
+            }
+            Step::Reseal { tok, from, node, ukey, skey, claims, aad, rng, now_ns } => {
+                self.reseal(*tok, *from, *node, *ukey, *skey, claims.as_ref(), aad, rng, now_ns.0)
             }
             Step::Wrap { blob, node, wk, key, with, params, rng } => self.wrap(*blob, *node, *wk, *key, with, params, rng),
             Step::Unwrap { blob, node, with, faults, as_kind } => self.unwrap(*blob, *node, with, faults, *as_kind),
@@ -719,7 +723,7 @@ impl<'p> World<'p> {
         self.stats.evaluations += 1;
         self.stats.bump(&format!("op:seal:{}:{}", bk.name(), purpose.name()));
         let plen = match &cl {
-            Claims::Raw(b) | Claims::Probe(b) => b.len(),
+            Claims::Raw(b) | Claims::Probe(b) | Claims::RawC(b) => b.len(),
             _ => 0,
         };
         self.stats.distinct.insert(format!(
@@ -752,29 +756,10 @@ impl<'p> World<'p> {
         }
         match r {
             Out::Ok(text) => {
-                let unseal_raw = match purpose {
-                    Purp::Local => krec.raw.clone(),
-                    Purp::Public => self.expected_public_raw(bk, &kh, &krec),
-                };
-                let Some(unseal_raw) = unseal_raw else { return self.skip("no-unseal-key-bytes") };
-                self.check_token_shape(bk, purpose, &text, &ft_bytes, &draws, nonce_b.is_some(), &cl);
-                self.cross_check_token(bk, purpose, &krec, &unseal_raw, &text, &cl, &aad_b);
                 if self.stats.samples.len() < 2 {
                     self.stats.samples.push(serde_json::json!({"op":"seal","backend":bk.name(),"purpose":purpose.name(),"token":truncate(&text, 120),"rng":rng.kind()}));
                 }
-                let rec = TokRec {
-                    text: text.clone(),
-                    family: bk.family(),
-                    purpose,
-                    unseal_key_raw: unseal_raw,
-                    claims: cl,
-                    footer: ft,
-                    footer_bytes: ft_bytes,
-                    aad: aad_b,
-                    by_reference: false,
-                };
-                self.issued.entry(text).or_default().push(tok);
-                self.toks.insert(tok, rec);
+                self.record_sealed(tok, bk, purpose, &kh, &krec, text, cl, ft, ft_bytes, aad_b, &draws, nonce_b.is_some());
             }
             Out::Err(e) => {
                 if krec.honest || krec.expect_valid == Some(true) {
@@ -791,6 +776,78 @@ impl<'p> World<'p> {
                 }
             }
             Out::Panic(p) => self.violate("C04", "panic", bk, &op, &short_key_detail(&krec), format!("seal panicked: {p}")),
+        }
+    }
+
+    /// A node produced a token: check its shape, nonce provenance and conformance, then enter it in
+    /// the ideal token table.
+    #[allow(clippy::too_many_arguments)]
+    fn record_sealed(&mut self, tok: usize, bk: Bk, purpose: Purp, kh: &KeyH, krec: &KeyRec, text: String, cl: Claims, ft: Foot, ft_bytes: Vec<u8>, aad_b: Vec<u8>, draws: &[Draw], caller_nonce: bool) {
+        let unseal_raw = match purpose {
+            Purp::Local => krec.raw.clone(),
+            Purp::Public => self.expected_public_raw(bk, kh, krec),
+        };
+        let Some(unseal_raw) = unseal_raw else { return self.skip("no-unseal-key-bytes") };
+        self.check_token_shape(bk, purpose, &text, &ft_bytes, draws, caller_nonce, &cl);
+        self.cross_check_token(bk, purpose, krec, &unseal_raw, &text, &cl, &aad_b);
+        let rec = TokRec { text: text.clone(), family: bk.family(), purpose, unseal_key_raw: unseal_raw, claims: cl, footer: ft, footer_bytes: ft_bytes, aad: aad_b, by_reference: false };
+        self.issued.entry(text).or_default().push(tok);
+        self.toks.insert(tok, rec);
+    }
+
+    /// Token refresh (C01/C16): unseal an authentic token and seal the object that came out again.
+    #[allow(clippy::too_many_arguments)]
+    fn reseal(&mut self, tok: usize, from: usize, node: usize, ukey: usize, skey: usize, claims: Option<&ClaimsSpec>, aad: &Bytes, rng: &RngSpec, now_ns: i128) {
+        let Some(bk) = self.node_bk(node) else { return self.skip("no-node") };
+        let Some(trec) = self.toks.get(&from).cloned() else { return self.skip("missing-token") };
+        let Some(ukh) = self.node_key(node, ukey) else { return self.skip("missing-key") };
+        let Some(skh) = self.node_key(node, skey) else { return self.skip("missing-key") };
+        let (urec, srec) = (self.keys[&ukey].clone(), self.keys[&skey].clone());
+        let purpose = trec.purpose;
+        let (want_u, want_s) = if purpose == Purp::Local { (Kind::Local, Kind::Local) } else { (Kind::Public, Kind::Secret) };
+        if urec.kind != want_u || srec.kind != want_s || trec.family != bk.family() {
+            return self.skip("key-kind");
+        }
+        let be = backend(bk);
+        // only refreshes of tokens this verifier must accept are judged
+        let key_raw = be.key_raw(urec.kind, &ukh).ok();
+        if key_raw.as_ref() != Some(&trec.unseal_key_raw) {
+            return self.skip("reseal-needs-the-right-key");
+        }
+        let new_cl = match claims {
+            Some(c) => {
+                let Some(c) = self.materialise_claims(c, now_ns) else { return self.skip("claims") };
+                if c.kind() != trec.claims.kind() {
+                    return self.skip("claims-kind");
+                }
+                Some(c)
+            }
+            None => None,
+        };
+        let new_aad = if bk.has_aad() { aad.get() } else { vec![] };
+        let op = format!("reseal-{}", purpose.name());
+        self.arm(rng, Some(now_ns));
+        let r = be.reseal(purpose, &ukh, &skh, &trec.text, trec.claims.kind(), trec.footer.kind(), &trec.aad, new_cl.as_ref(), &new_aad);
+        let draws = self.disarm();
+        self.stats.evaluations += 1;
+        self.stats.bump(&format!("op:reseal:{}:{}", bk.name(), purpose.name()));
+        self.stats.distinct.insert(format!("reseal|{}|{}|{:?}|{:?}|newclaims{}|{}|{}", bk.name(), purpose.name(), trec.claims.kind(), trec.footer.kind(), new_cl.is_some() as u8, rng.kind(), r.class()));
+        self.obs(&format!("reseal {} {} -> {}", bk.name(), purpose.name(), match &r { Out::Ok(s) => s.clone(), o => o.class() }));
+        if draws.iter().any(|d| d.failed) {
+            self.stats.bump("fault:rng-fail-fired");
+            self.judge_rng_failure(bk, &op, r.is_ok(), r.is_panic(), &r.class());
+            return;
+        }
+        match r {
+            Out::Ok(text) => {
+                let cl = new_cl.unwrap_or_else(|| trec.claims.clone());
+                if purpose == Purp::Local && text == trec.text {
+                    self.violate("C16", "refresh-repeats-token", bk, &op, "", "refreshing a token produced the identical token".into());
+                }
+                self.record_sealed(tok, bk, purpose, &skh, &srec, text, cl, trec.footer.clone(), trec.footer_bytes.clone(), new_aad, &draws, false);
+            }
+            Out::Err(e) => self.violate("C01", "reseal-failed", bk, &op, "", format!("unsealing an authentic token and sealing the result failed: {e:?}")),
+            Out::Panic(p) => self.violate("C04", "panic", bk, &op, "", format!("reseal panicked: {p}")),
         }
     }
 
@@ -818,7 +875,7 @@ impl<'p> World<'p> {
     #[allow(clippy::too_many_arguments)]
     fn check_token_shape(&mut self, bk: Bk, purpose: Purp, text: &str, footer: &[u8], draws: &[Draw], caller_nonce: bool, cl: &Claims) {
         let op = format!("seal-{}", purpose.name());
-        let want_header = format!("v{}.{}.", bk.family(), purpose.name());
+        let want_header = format!("v{}{}.{}.", bk.family(), cl.kind().suffix(), purpose.name());
         let Some(parts) = TokParts::parse(text) else {
             self.violate("C09", "malformed-output", bk, &op, "", format!("sealed token is not header.b64url[.b64url]: {}", truncate(text, 80)));
             return;
@@ -827,7 +884,7 @@ impl<'p> World<'p> {
             self.violate("C01", "wrong-header-or-footer", bk, &op, "", format!("token header/footer differ from what was sealed: {}", truncate(text, 80)));
         }
         let msg_len = match cl {
-            Claims::Raw(b) | Claims::Probe(b) => Some(b.len()),
+            Claims::Raw(b) | Claims::Probe(b) | Claims::RawC(b) => Some(b.len()),
             _ => None,
         };
         if let Some(n) = msg_len {
@@ -858,7 +915,7 @@ impl<'p> World<'p> {
                 if let (Some(d), Some(m)) = (draws.first(), msg_len) {
                     let _ = m;
                     let msg: &[u8] = match cl {
-                        Claims::Raw(b) | Claims::Probe(b) => b,
+                        Claims::Raw(b) | Claims::Probe(b) | Claims::RawC(b) => b,
                         _ => &[],
                     };
                     if msg_len.is_some() {
@@ -916,7 +973,7 @@ impl<'p> World<'p> {
         };
         self.stats.bump("crosscheck:reference-verified-token");
         let same = match cl {
-            Claims::Raw(b) | Claims::Probe(b) => *b == m,
+            Claims::Raw(b) | Claims::Probe(b) | Claims::RawC(b) => *b == m,
             Claims::Json(v) => serde_json::from_slice::<serde_json::Value>(&m).ok().as_ref() == Some(v),
             Claims::Reg(_) => serde_json::from_slice::<serde_json::Value>(&m).is_ok_and(|v| v.is_object()),
         };
@@ -927,7 +984,7 @@ impl<'p> World<'p> {
         // paseto-v3 (RustCrypto) signs deterministically: RFC 6979 nonce + low-s, recomputed here
         if bk == Bk::V3 && purpose == Purp::Public {
             if let Some(sk_raw) = krec.raw.as_ref() {
-                match refimpl::v3_public_deterministic(sk_raw, &m, &footer, aad) {
+                match refimpl::v3_public_deterministic(cl.kind().suffix(), sk_raw, &m, &footer, aad) {
                     Some(rt) if rt == text => self.stats.bump("crosscheck:rfc6979-signature-bit-exact"),
                     Some(rt) => self.violate("C03", "not-bit-exact", bk, &op, "rfc6979", format!("RFC 6979 + low-s prescribes {} but the library produced {}", truncate(&rt, 90), truncate(text, 90))),
                     None => self.stats.bump("crosscheck:rfc6979-unavailable"),
@@ -943,7 +1000,7 @@ impl<'p> World<'p> {
             if parts.payload.len() < nl {
                 return;
             }
-            match refimpl::seal(f, purpose, sk_raw, &m, &footer, aad, &parts.payload[..nl], iv.as_ref()) {
+            match refimpl::seal(f, cl.kind().suffix(), purpose, sk_raw, &m, &footer, aad, &parts.payload[..nl], iv.as_ref()) {
                 Some((rt, _)) => {
                     if rt != text {
                         self.violate("C03", "not-bit-exact", bk, &op, "", format!("for the same key, nonce, message, footer and assertion the specification gives {} but the library produced {}", truncate(&rt, 90), truncate(text, 90)));
@@ -1157,7 +1214,9 @@ impl<'p> World<'p> {
                         }
                     }
                     (Out::Ok(_), false) => {
-                        if claims_for_kind.is_some() {
+                        if t.claims.kind().suffix() != pk.suffix() {
+                            self.violate("C02", "forgery-accepted", bk, &op, "encoding-suffix", format!("token sealed with header suffix {:?} accepted by a reader of suffix {:?}", t.claims.kind().suffix(), pk.suffix()));
+                        } else if claims_for_kind.is_some() {
                             self.violate("C11", "claims-released-despite-validator", bk, &op, &vspec_shape(validator), format!("validator {validator:?} rejects these claims at now={now_ns} but unseal returned them"));
                         } else {
                             self.stats.bump("deliver:kind-mismatch-accepted");
@@ -1233,7 +1292,7 @@ impl<'p> World<'p> {
     }
 
     #[allow(clippy::too_many_arguments)]
-    fn ref_seal(&mut self, tok: usize, family: u8, key: usize, purpose: Purp, payload: &Bytes, footer: &Bytes, aad: &Bytes, nonce: &Bytes) {
+    fn ref_seal(&mut self, tok: usize, family: u8, key: usize, purpose: Purp, payload: &Bytes, footer: &Bytes, aad: &Bytes, nonce: &Bytes, suffix: &str) {
         let Some(krec) = self.keys.get(&key).cloned() else { return self.skip("missing-key") };
         let Some(kraw) = krec.raw.clone() else { return self.skip("missing-key-bytes") };
         if krec.family != family {
@@ -1241,7 +1300,7 @@ impl<'p> World<'p> {
         }
         let (p, f, a, n) = (payload.get(), footer.get(), aad.get(), nonce.get());
         let iv = self.plan.iv.clone();
-        let r = refimpl::seal(family, purpose, &kraw, &p, &f, &a, &n, iv.as_ref());
+        let r = refimpl::seal(family, suffix, purpose, &kraw, &p, &f, &a, &n, iv.as_ref());
         self.stats.bump(&format!("op:ref-seal:v{family}:{}", purpose.name()));
         match r {
             Some((text, unseal_raw)) => {
@@ -1255,7 +1314,7 @@ impl<'p> World<'p> {
                     family,
                     purpose,
                     unseal_key_raw: unseal_raw,
-                    claims: Claims::Raw(p),
+                    claims: if suffix == "c" { Claims::RawC(p) } else { Claims::Raw(p) },
                     footer: if f.is_empty() { Foot::Unit } else { Foot::Bytes(f.clone()) },
                     footer_bytes: f,
                     aad: a,
@@ -1735,7 +1794,7 @@ pub fn truncate(s: &str, n: usize) -> String {
 
 fn claims_digest(c: &Claims) -> String {
     match c {
-        Claims::Raw(b) | Claims::Probe(b) => format!("{} bytes [{}…]", b.len(), hex::encode(&b[..b.len().min(12)])),
+        Claims::Raw(b) | Claims::Probe(b) | Claims::RawC(b) => format!("{} bytes [{}…]", b.len(), hex::encode(&b[..b.len().min(12)])),
         Claims::Json(v) => truncate(&v.to_string(), 60),
         Claims::Reg(r) => truncate(&format!("{r:?}"), 100),
     }
@@ -1762,6 +1821,10 @@ fn vspec_shape(v: &VSpec) -> String {
 
 /// The claims as the verifier's payload type would decode them (None: not decodable).
 fn convert_claims(c: &Claims, pk: PayloadKind) -> Option<Claims> {
+    // another encoding suffix is another header: nothing sealed under one is a token of the other
+    if c.kind().suffix() != pk.suffix() {
+        return None;
+    }
     if c.kind() == pk {
         if let Claims::Probe(b) = c {
             if b.starts_with(payloads::PROBE_FAIL_MARK) {
@@ -1771,7 +1834,7 @@ fn convert_claims(c: &Claims, pk: PayloadKind) -> Option<Claims> {
         return Some(c.clone());
     }
     let bytes: Vec<u8> = match c {
-        Claims::Raw(b) | Claims::Probe(b) => b.clone(),
+        Claims::Raw(b) | Claims::Probe(b) | Claims::RawC(b) => b.clone(),
         Claims::Json(v) => serde_json::to_vec(v).ok()?,
         Claims::Reg(_) => return None,
     };
@@ -1782,6 +1845,7 @@ fn convert_claims(c: &Claims, pk: PayloadKind) -> Option<Claims> {
         }
         PayloadKind::Json => serde_json::from_slice(&bytes).ok().map(Claims::Json),
         PayloadKind::Reg => None,
+        PayloadKind::RawC => Some(Claims::RawC(bytes)),
     }
 }
 
